@@ -88,7 +88,7 @@ func petBody(r *simfw.RNG, m string, valid bool) string {
 func genOp(r *simfw.RNG, m string) Op {
 	rt := simfw.Pick(r, []string{"gorilla", "gorilla", "legacy"})
 	ver := simfw.Pick(r, []string{"/v1", "/v1", "/v2"})
-	switch r.Intn(16) {
+	switch r.Intn(17) {
 	case 0, 1:
 		return Op{Kind: "find", Router: rt, Method: simfw.Pick(r, []string{"GET", "PUT", "POST", "DELETE"}),
 			Path: simfw.Pick(r, []string{ver + "/pets/7", ver + "/pets/abc", ver + "/form", "/v3/pets/1", "/nope/" + m, ver + "/text", ver + "/upload"})}
@@ -171,6 +171,11 @@ func genOp(r *simfw.RNG, m string) Op {
 			sc = simenv.Script{}
 		}
 		return Op{Kind: "mw", Method: "GET", Path: ver + "/pets/" + simfw.Pick(r, []string{"5", "0", "x"}), Strict: r.Bool(), Script: sc}
+	case 15:
+		if r.Bool() {
+			return Op{Kind: "load", Path: simfw.Pick(r, []string{"main.yaml", "main.yaml", "other.yaml", "missing.yaml"})}
+		}
+		return Op{Kind: "gen", Type: simfw.Pick(r, []string{"fixed:1", "dyn:3", "dyn:3", "dyn:5"})}
 	default:
 		return Op{Kind: "gen", Type: simfw.Pick(r, []string{"fixed:1", "fixed:2", "fixed:inner", "dyn:1", "dyn:3", "dyn:5", "dyn:3"})}
 	}
